@@ -81,25 +81,27 @@ def enc_target(t: stim.GateTarget) -> int:
     return q * 16 + (1 if t.is_inverted_result_target else 0) + 2 * pauli
 
 
-def enc_arg(a: float) -> int:
+def enc_arg(a: float, strict: bool = True):
     v = a * ARG_UNIT
     if v != int(v):
-        raise ValueError(f"argument {a} is not a multiple of 1/{ARG_UNIT}")
+        if strict:
+            raise ValueError(f"argument {a} is not a multiple of 1/{ARG_UNIT}")
+        return ("not-a-multiple", repr(a))      # every argument the histories write is one: the implementation has changed the value
     return int(v)
 
 
-def enc_instr(ins: stim.CircuitInstruction, tags: Tags):
+def enc_instr(ins: stim.CircuitInstruction, tags: Tags, strict: bool = True):
     groups = tuple(tuple(enc_target(t) for t in g if not t.is_combiner) for g in ins.target_groups())
-    return (ins.name, tuple(enc_arg(a) for a in ins.gate_args_copy()), tags.id(ins.tag), groups)
+    return (ins.name, tuple(enc_arg(a, strict) for a in ins.gate_args_copy()), tags.id(ins.tag), groups)
 
 
-def enc_circ(c: stim.Circuit, tags: Tags):
+def enc_circ(c: stim.Circuit, tags: Tags, strict: bool = True):
     out = []
     for x in c:
         if isinstance(x, stim.CircuitRepeatBlock):
-            out.append(("REP", x.repeat_count, enc_circ(x.body_copy(), tags)))
+            out.append(("REP", x.repeat_count, enc_circ(x.body_copy(), tags, strict)))
         else:
-            out.append(enc_instr(x, tags))
+            out.append(enc_instr(x, tags, strict))
     return tuple(out)
 
 
@@ -525,16 +527,18 @@ def compare_states(T, S, RT, RS, step):
         w = t._stim_circ
         if has_repeat(w):
             raise Mismatch("repeat-block", step, f"tsim variable {v} wraps a circuit with a REPEAT block: {str(w)!r}")
-        a = enc_circ(w.flattened(), tags)
+        a = enc_circ(w.flattened(), tags, strict=False)
         b = enc_circ(r.flattened(), tags)
         if a != b:
             kind = "coords" if strip_coords(a) == strip_coords(b) else "value"
-            raise Mismatch(kind, step, f"tsim variable {v}: {str(w.flattened())!r} but flattened Stim reference {str(r.flattened())!r}")
+            diff = next(((x, y) for x, y in zip(a, b) if x != y), None)
+            more = f" (first differing instruction, arguments in units of 1/{ARG_UNIT}: {diff[0]} vs {diff[1]})" if diff else ""
+            raise Mismatch(kind, step, f"tsim variable {v}: {str(w.flattened())!r} but flattened Stim reference {str(r.flattened())!r}{more}")
         ca, cb = counts_of(t), counts_of(r)
         if ca != cb:
             raise Mismatch("counts", step, f"tsim variable {v}: (meas, det, obs, qubits, ticks) {ca} vs Stim {cb}")
     for j, (s, r) in enumerate(zip(S, RS)):
-        a = enc_circ(s.flattened(), tags)
+        a = enc_circ(s.flattened(), tags, strict=False)
         b = enc_circ(r.flattened(), tags)
         if a != b:
             kind = "coords" if strip_coords(a) == strip_coords(b) else "value"
